@@ -9,8 +9,8 @@
 EXTENDS ClientState, Json
 
 CONSTANTS Depth,      \* length of the emitted histories
-          OpsSel,     \* which operations at which position: "any", "client", "ident", "markers", "plant"
-          InitSel     \* which initial states: "all", "main", "ident", "markers", "bare"
+          OpsSel,     \* which operations at which position: "any", "client", "ident", "ids", "markers", "plant"
+          InitSel     \* which initial states: "all", "plain", "main", "ident", "rhsm", "markers", "bare"
 
 IdOps  == {"ReadId", "NewId"}
 RegOps == {"Register", "Unregister"}
@@ -20,6 +20,7 @@ OpsAt(i) ==
     CASE OpsSel = "any"     -> ClientOps \cup EnvOps
       [] OpsSel = "client"  -> ClientOps
       [] OpsSel = "ident"   -> IdOps \cup RegOps
+      [] OpsSel = "ids"     -> IdOps
       [] OpsSel = "markers" -> IF i = Depth THEN RegOps ELSE RegOps \cup DelOps
       [] OpsSel = "plant"   -> IF i = Depth THEN RegOps ELSE RegOps \cup DelOps \cup EnvOps
       [] OTHER              -> {}
@@ -27,13 +28,16 @@ OpsAt(i) ==
 VARIABLES hist, s0
 mcvars == <<vars, hist, s0>>
 
+PlainRhsm(s) == s.rhsm \in {"none", "canonical"}     \* the odd spellings have their own family ("rhsm")
 AllAbsent(s, d) == s.reg[d] = "absent" /\ s.unreg[d] = "absent"
 Sel(s) ==
     CASE InitSel = "all"     -> TRUE
-      [] InitSel = "main"    -> s.dir["legacy"] = "absent"
-      [] InitSel = "ident"   -> s.dir["legacy"] = "absent" /\ AllAbsent(s, "main")
-      [] InitSel = "markers" -> s.dir["main"] = "populated" /\ s.idf = [form |-> "canonical", id |-> "u0"] /\ ~s.rhsm
-      [] InitSel = "bare"    -> s.dir["main"] = "empty" /\ s.dir["legacy"] # "populated" /\ ~s.rhsm
+      [] InitSel = "plain"   -> PlainRhsm(s)
+      [] InitSel = "main"    -> s.dir["legacy"] = "absent" /\ PlainRhsm(s)
+      [] InitSel = "ident"   -> s.dir["legacy"] = "absent" /\ AllAbsent(s, "main") /\ PlainRhsm(s)
+      [] InitSel = "rhsm"    -> s.dir["legacy"] = "absent" /\ AllAbsent(s, "main") /\ ~PlainRhsm(s)
+      [] InitSel = "markers" -> s.dir["main"] = "populated" /\ s.idf = [form |-> "canonical", id |-> "u0"] /\ ~HasRhsm(s)
+      [] InitSel = "bare"    -> s.dir["main"] = "empty" /\ s.dir["legacy"] # "populated" /\ ~HasRhsm(s)
       [] OTHER               -> FALSE
 
 MCInit == Init /\ Sel(st) /\ hist = <<>> /\ s0 = st
